@@ -313,6 +313,66 @@ example :
     JsonDec.dec ⟨true, true⟩ t (.obj [(JsonDec.keyType, .num 5), ([98], .bool true), ([110], .obj [])]) = .err := by
   decide
 
+/-- **`JSONDecode` of any text**: whatever `encoding/json` makes of the text — not JSON at all, a top-level `null`, array
+or scalar, or an object of any shape — the call returns a value or an error. -/
+theorem C02_json_text_no_panic (validate : Bool) (t : JsonDec.JTy) (doc : Option JsonDec.Json) :
+    JsonDec.decText ⟨true, validate⟩ t doc ≠ .panic := by
+  unfold JsonDec.decText
+  split
+  · simp
+  · exact C02_json_no_panic validate t _
+  · exact C02_json_no_panic validate t _
+  · simp
+
+theorem has0x_length (s r : Bytes) (h : JsonDec.has0x s = some r) : s.length = r.length + 2 := by
+  unfold JsonDec.has0x at h
+  split at h <;> simp_all
+
+/-- **The string decoders of numbers.go produce no more than the string holds**: `DecodeHex` yields at most half as many
+bytes as the string has characters, `DecodeUint256` a number of at most 32 bytes and at most half the characters
+(`DecodeUint64` yields 8 bytes or an error) — for every string. -/
+theorem C02_numbers_output_le (s : Bytes) (n : Nat) :
+    (JsonDec.hexDecode s = some n → 2 * n ≤ s.length) ∧
+    (JsonDec.bigDecode s = some n → n ≤ 32 ∧ 2 * n ≤ s.length) := by
+  constructor
+  · intro h
+    unfold JsonDec.hexDecode at h
+    split at h
+    · simp at h; omega
+    · split at h
+      · simp at h
+      · rename_i r hr
+        have := has0x_length s r hr
+        split at h
+        · simp at h; omega
+        · simp at h
+  · intro h
+    unfold JsonDec.bigDecode at h
+    split at h
+    · rename_i hok
+      split at h
+      · rename_i r hr
+        have hl := has0x_length s r hr
+        have h64 : r.length ≤ 64 := by
+          unfold JsonDec.decodeBigOk at hok
+          rw [hr] at hok
+          simp only [Bool.and_eq_true, decide_eq_true_eq] at hok
+          exact hok.1.1.2
+        simp only [Option.some.injEq] at h
+        split at h <;> omega
+      · simp at h
+    · simp at h
+
+/-- Non-vacuity: the outcome classes of the three decoders ("" is the empty byte string, "0x" too; a leading zero digit
+is refused for numbers; 2^64 is out of range). -/
+example :
+    JsonDec.hexDecode [] = some 0 ∧ JsonDec.hexDecode [48, 120] = some 0 ∧
+    JsonDec.hexDecode [48, 120, 48, 49, 97, 66] = some 2 ∧ JsonDec.hexDecode [48, 120, 48] = none ∧
+    JsonDec.bigDecode [48, 120, 48] = some 0 ∧ JsonDec.bigDecode [48, 120, 48, 49] = none ∧
+    JsonDec.bigDecode [48, 120, 49, 48, 48] = some 2 ∧
+    JsonDec.parseUintOk [49, 56] = true ∧ JsonDec.parseUintOk [45, 49] = false := by
+  decide
+
 /-! ## shared state of a `serix.API`: the kind of lock of every accessor
 
 A `serix.API` is meant to be shared: every Decode/Encode reads the struct-field cache and the registries,
@@ -459,6 +519,37 @@ theorem C02_facts_body_Deserializer_Skip : body_Deserializer_Skip = Hive.Spec.De
 theorem C02_facts_body_Deserializer_ReadTime : body_Deserializer_ReadTime = Hive.Spec.DeserFacts.body_Deserializer_ReadTime := rfl
 
 theorem C02_facts_body_Deserializer_ReadPayload : body_Deserializer_ReadPayload = Hive.Spec.DeserFacts.body_Deserializer_ReadPayload := rfl
+
+theorem C02_facts_body_DecodeHex : body_DecodeHex = Hive.Spec.DeserFacts.body_DecodeHex := rfl
+
+theorem C02_facts_body_DecodeUint256 : body_DecodeUint256 = Hive.Spec.DeserFacts.body_DecodeUint256 := rfl
+
+theorem C02_facts_body_DecodeUint64 : body_DecodeUint64 = Hive.Spec.DeserFacts.body_DecodeUint64 := rfl
+
+/-- the operands that denote the TARGET value (a `reflect.Value` of the registered Go type), not the JSON document -/
+def targetOperands : List String := ["value.Interface()", "value.Addr().Interface()", "deserializable"]
+
+/-- **No unchecked type assertion on decoded JSON** (how `map_decode.go` panicked before 63f234d): in the working tree,
+every type assertion of map_decode.go whose operand is not the target value is of the comma-ok form — regenerated by
+go/ast on every run (`assertions_map_decode`), so an assertion added later in a branch that no generated document
+reaches still breaks this obligation. -/
+theorem C02_facts_json_no_unchecked_assertion :
+    (assertions_map_decode.filter fun a => !a.2.2.2 && !targetOperands.contains a.2.1) = [] := by decide
+
+/-- the one assertion of the single-value form is on the target value, directly behind the comma-ok test of the same
+assertion (`mapDecode`: `if _, ok := value.Interface().(DeserializableJSON); ok { deserializable = value.Interface().(…)`) -/
+theorem C02_facts_json_unchecked_assertions :
+    (assertions_map_decode.filter fun a => !a.2.2.2) = [("mapDecode", "value.Interface()", "DeserializableJSON", false)] ∧
+    assertions_map_decode.take 2 =
+      [("mapDecode", "value.Interface()", "DeserializableJSON", true), ("mapDecode", "value.Interface()", "DeserializableJSON", false)] := by
+  decide
+
+/-- the complete table of assertion sites = the dispatch on the JSON kind that `JsonDec.dec` transcribes -/
+theorem C02_facts_json_assertions : assertions_map_decode = Hive.Spec.DeserFacts.assertions_map_decode := rfl
+
+/-- the `reflect.ValueOf` sites of map_decode.go (a wrapped JSON value `Set` into the target panics on a kind mismatch):
+the operands that are decoded JSON are exactly the three that follow a checked assertion / a kind test -/
+theorem C02_facts_json_reflectValueOf : reflectValueOf_map_decode = Hive.Spec.DeserFacts.reflectValueOf_map_decode := rfl
 
 end Facts
 
